@@ -844,6 +844,13 @@ func assumptionsFor(prop string, w *World) []string {
 	out := []string{
 		"assumed contracts on dependencies are listed under coverage.trusted_base (generated from /verif/trusted/*.contracts that were actually used)",
 		"induction over operation histories (every operation requires/ensures the same invariant) is an argument outside the solver",
+		"go/ssa's reading of the source (NaiveForm) and govc's translation of SSA instructions, calls, frames and loops into verification conditions are trusted; so are z3 5.1.0, z3 4.8.12 and cvc5 1.0.x when they answer unsat",
+		"integers are mathematical in the solver; every Go integer operation that could overflow its type carries an overflow obligation (not an assumption); strings entering a function are shorter than 2^40 bytes and slices shorter than 2^48 elements",
+		"uninterpreted spec functions and their axioms (/verif/spec/*.spec, /verif/trusted/*.contracts: specIDNA, specAtoiVal, specItoa, specParseIntVal, specHexStr, specEncRune, specToLower, specSplit*, least-witness functions specSchemeEnd/specFirstHash/specFirstQH/specHostEnd) are assumed consistent; `govc probe` (thorough tier) looks for a contradiction among them",
+		"the spec functions are a hand transcription of the WHATWG URL Standard (24 May 2023) and of the documented behaviour of the library's options",
+		"user callbacks (pre/post parse host functions, Iterate callbacks) terminate, do not panic and write nothing reachable from the URL (callbacks.contracts)",
+		"excluded by preconditions: nil arguments to exported functions, nil ParserOption values, hand-built PercentEncodeSet{} / SearchParams{} literals, detached SearchParams clones, stack or memory exhaustion",
+		"a violation is reported without a replayed failing input (no replay harness): the evidence is the named obligation that was discharged at baseline and is not discharged now",
 	}
 	switch prop {
 	case "C14":
@@ -851,6 +858,11 @@ func assumptionsFor(prop string, w *World) []string {
 			"dependencies are read-safe for concurrent use (bitset.Test, idna.Profile.ToASCII, charmap, regexp, concurrent map reads)")
 	case "C10":
 		out = append(out, "client code does not assign to the package's exported table variables")
+	case "C15":
+		out = append(out, "the read-frame obligations (kind 'reads') are decided by the generator's static walk over the SSA of the function and its static callees, not by the solver; calls through interfaces and function values are assumed not to read the unexported diagnostics fields",
+			"the step from 'the diagnostics options are read only by the three error handlers, whose return value is proved independent of reportValidationErrors' to the two-run (relational) statement of the property is a non-interference argument, not a solver obligation")
+	case "C01", "C06":
+		out = append(out, "the claim is partial (see MANIFEST level text): component slices, the state-transition relation and per-state step clauses are proved; their composition into 'the result equals the standard's result for every input' is not")
 	}
 	return out
 }
